@@ -27,8 +27,10 @@ def prop(pid, **kw):
 # C14 schema edits
 prop("C14",
      family="schema",
-     mc=lambda tier: [("MC_Schema", _t(tier, "MC_Schema_quick.cfg", "MC_Schema_thorough.cfg"))],
-     gen=lambda tier: ("MC_Schema", _t(tier, "Gen_Schema_quick.cfg", "Gen_Schema_thorough.cfg")),
+     mc=lambda tier: [("MC_Schema", _t(tier, "MC_Schema_quick.cfg", "MC_Schema_thorough.cfg")),
+                      ("MC_Schema", "MC_Schema_three.cfg")],
+     gen=lambda tier: [("MC_Schema", _t(tier, "Gen_Schema_quick.cfg", "Gen_Schema_thorough.cfg")),
+                       ("MC_Schema", "Gen_Schema_three.cfg")],
      driver=lambda tier, seed, gen, out: ["schema", "-gen", gen, "-out", out, "-seed", str(seed)] +
      _t(tier, ["-sample", "400", "-walks", "100", "-depth", "40"],
         ["-sample", "6000", "-walks", "2000", "-depth", "60", "-lit"]),
@@ -120,6 +122,46 @@ prop("C19",
      )
 
 
+# ---------------------------------------------------------------------------------------------
+# C17 / C18 resources through the Resource interface
+_res_common = dict(
+    family="resource",
+    mc=lambda tier: [("MC_Resource", _t(tier, "MC_Resource_d3.cfg", "MC_Resource_d4.cfg"))],
+    gen=lambda tier: [("MC_Resource", _t(tier, "Gen_Resource_quick.cfg", "Gen_Resource_d3.cfg")),
+                      ("MC_Resource", "Sim_Resource.cfg", ["-simulate", "num=%d" % _t(tier, 40, 600), "-depth", "40"])],
+    driver=lambda tier, seed, gen, out: ["resource", "-gen", gen, "-out", out, "-seed", str(seed)] +
+    _t(tier, ["-sample", "250"], ["-sample", "6000", "-variants", "2"]),
+    trace=("Trace_Resource", "Trace_Resource.cfg"),
+    required=["New:ok", "Set:ok", "SetID:ok", "Copy:ok", "NewLike:ok", "TypeCopy:ok", "MutSlice:ok", "Marshal:ok",
+              "Filter:ok", "AddField:ok", "RemoveField:ok", "Equal:soft-soft", "Equal:soft-wrap", "Equal:wrap-soft",
+              "Equal:wrap-wrap"],
+    assumptions=["Set values are well-typed (typed or untyped nil only for nullable kinds)",
+                 "to-many relationships are compared as sets by the equality laws",
+                 "the model store holds at most 3 live objects; histories beyond the breadth-first depth come from "
+                 "TLC simulation"],
+)
+prop("C17",
+     level_text="One TLA+ store of live objects with by-value semantics stands for SoftResource and Wrapper alike: TLC "
+                "checks, breadth-first to depth 3-4 from seeded histories, that every entry stays complete and "
+                "well-typed; it emits the reachable states with their histories and simulated behaviours of depth 25; "
+                "the driver replays them on real soft resources and on wrappers around run-time declared structs "
+                "(13 kind rotations, 3 value tables), applies every operation of the alphabet, and TLC's monitor "
+                "judges Get of every field, Attrs, Rels, type name and id of every live object after each call. "
+                "Equal / EqualStrict are judged on ~1150 TLC-generated pairs differing in exactly one aspect, in all "
+                "four implementation combinations.",
+     level_note="Known finding: Equal ignores attribute names (pinned by TestEqual). Bounded store (3 objects), fixed "
+                "field names, representatives from the value tables.",
+     **_res_common)
+prop("C18",
+     level_text="Same specification and traces as C17; the frame condition (no entry other than the one acted on "
+                "changes) is an action property of the model and is judged on every recorded real step, where ALL "
+                "live objects are projected after each call: Copy, New, Type.Copy followed by Set, field edits, "
+                "marshaling, filtering and writes through slices returned by Get on either side.",
+     level_note="Sharing through pointers to scalars is not exercised (the property names slices). Bounded store, "
+                "representatives from the value tables; byte-string kinds occur at kind rotation 0 (half of the variants).",
+     **_res_common)
+
+
 def run(pid, tier, seed):
     P = PROPS[pid]
     if "run" in P:
@@ -141,7 +183,8 @@ def run_family(pid, tier, seed):
             g = P["gen"](tier)
             if isinstance(g, tuple):
                 g = [g]
-            paths = [V.generate(scr, mod, cfg, "gen-%d.out" % i) for i, (mod, cfg) in enumerate(g)]
+            paths = [V.generate(scr, x[0], x[1], "gen-%d.out" % i, seed=seed, extra=(x[2] if len(x) > 2 else ()))
+                     for i, x in enumerate(g)]
             gen_path = ",".join(paths)
         evdir = scr.sub("ev")
         env = dict(VERIF_SEED=str(seed), VERIF_TIER=tier)
